@@ -171,6 +171,28 @@ def r_metadata(ctx):
                   'portable roaring serialisation', 'RoaringBitmapCodec::bytes_encode writes %s' % got)
 
 
+def enum_table(f):
+    """{byte value: variant name | 'Err' | '?'}: the function evaluated path-by-path for concrete argument values"""
+    import absint
+    pname = f.local_name(1) or 'arg1'
+    table = {}
+    for v in list(range(0, 8)) + [255]:
+        outs, forks = absint.explore(f, {'int:%s' % pname: v})
+        res = set()
+        for k, t in outs:
+            tt = strip(t)
+            if tt[0] == 'agg' and tt[1].endswith('result::Result'):
+                if tt[2] == 'Ok':
+                    inner = strip(tt[3][0][1])
+                    res.add(inner[2] if inner[0] == 'agg' else '?')
+                else:
+                    res.add('Err')
+            else:
+                res.add('?')
+        table[v] = list(res)[0] if len(res) == 1 else '?' + '|'.join(sorted(res))
+    return table
+
+
 def r_modes(ctx):
     F = ctx.F
     rule = 'R-MODES'
@@ -183,22 +205,9 @@ def r_modes(ctx):
               'NodeMode discriminants %s (size %s) differ from the reference %s: keys of existing databases change meaning/order' % (got, a['size'], ref['node_mode']))
     f = F.fn('<node_id::NodeMode as std::convert::TryFrom<u8>>::try_from')
     if ctx.need(f is not None, rule, 'TryFrom<u8> for NodeMode'):
-        table = {}
-        for b, k, t in paths.ret_assigns(f):
-            if k != 'ok':
-                continue
-            v = strip(dict(t[3])['0'])
-            name = v[2] if v[0] == 'agg' else show(v)
-            for s in paths.controlling_switches(f, b):
-                for x in f.succ(s):
-                    if b in f.reachable(x):
-                        e = paths.edge_cond(f, s, x)
-                        if e and e[0] == 'bool' and e[2] and e[1][0] == 'binop' and e[1][1] == 'Eq':
-                            c = const_eval(e[1][3])
-                            if c is None:
-                                c = const_eval(e[1][2])
-                            table[name] = c
-        ctx.check(table == ref['node_mode'], rule, 'NodeMode/try_from', f.loc(), 'u8 -> NodeMode table %s' % table,
+        table = enum_table(f)
+        want = {v: k for k, v in ref['node_mode'].items()}
+        ctx.check(table == {i: want.get(i, 'Err') for i in range(0, 8)} | {255: 'Err'}, rule, 'NodeMode/try_from', f.loc(), 'u8 -> NodeMode table %s (every other byte is rejected)' % {k: v for k, v in table.items() if v != 'Err'},
                   'TryFrom<u8> for NodeMode maps %s; reference %s' % (table, ref['node_mode']))
     # key byte order = (index, kind, id) order: index and id big-endian, in that field order: from the key rows
     k = F.adts.get('key::Key')
